@@ -43,6 +43,11 @@ pub use crate::dist::cache::TcCache;
 /// toolchain store, for the external harness.
 #[cfg(all(sccache_verif, feature = "dist-client"))]
 pub use crate::dist::cache::ClientToolchains;
+#[cfg(all(
+    sccache_verif,
+    any(feature = "dist-client", feature = "dist-server")
+))]
+pub use crate::dist::cache::verif_make_lru_key_path;
 
 // TODO: paths (particularly outputs, which are accessed by an unsandboxed program)
 // should be some pre-sanitised AbsPath type
@@ -808,4 +813,27 @@ pub trait Client: Send + Sync {
     ) -> Result<(Toolchain, Option<(String, PathBuf)>)>;
     fn rewrite_includes_only(&self) -> bool;
     fn get_custom_toolchain(&self, exe: &Path) -> Option<PathBuf>;
+}
+
+/// Verification hooks: construct the request body readers / read back an output without the HTTP layer.
+#[cfg(all(sccache_verif, feature = "dist-server"))]
+mod verif_readers {
+    use super::*;
+    impl<'a> ToolchainReader<'a> {
+        pub fn verif_new(r: Box<dyn Read + 'a>) -> Self {
+            ToolchainReader(r)
+        }
+    }
+    impl<'a> InputsReader<'a> {
+        pub fn verif_new(r: Box<dyn Read + Send + 'a>) -> Self {
+            InputsReader(r)
+        }
+    }
+    impl OutputData {
+        pub fn verif_bytes(&self) -> io::Result<Vec<u8>> {
+            let mut out = vec![];
+            flate2::read::ZlibDecoder::new(io::Cursor::new(&self.0)).read_to_end(&mut out)?;
+            Ok(out)
+        }
+    }
 }
